@@ -5,12 +5,18 @@
   what git-ai's pre/post hooks of that command do to the file's claims (working-log entries,
   INITIAL, stash notes). What each function mirrors:
 
-    dropClaims         hooks/checkout_hooks.rs:remove_attributions_for_pathspecs for a file the pathspec
-                       matches (its entries are removed from every checkpoint, its INITIAL claims and
-                       the recorded snapshot go: repo_storage.rs:write_initial_data), and
-                       repo_storage.rs:delete_working_log_for_base_commit as far as one file goes
-    discardFile        `git checkout [<tree-ish>] -- <path>` (post_checkout_hook Case 1): git writes the
-                       index version into the working tree; dropClaims
+    dropClaims         repo_storage.rs:delete_working_log_for_base_commit as far as one file goes (its
+                       entries, its INITIAL claims and the recorded snapshot go)
+    discardFile        `git checkout [<tree-ish>] -- <path>` (post_checkout_hook Case 1 →
+                       checkout_hooks.rs:reexamine_attributions_for_pathspecs): git writes the index
+                       version into the working tree; a human checkpoint records the restored content —
+                       a line that is still there keeps its author (carried over by content from the
+                       previous snapshot), the discarded lines are in no snapshot any more. (A restored
+                       file that git then reports as unchanged gets no entry in the code and loses its
+                       INITIAL claims instead; the model's checkpoint appends the entry without AI line
+                       that shadows them: the same readings, see `checkpoint`.)
+                       Before the repair (`discardFileDrop`): every claim of the file was removed,
+                       also those about lines that the restored version still holds
     restoreFile        `git restore <path>` (no hook at all: git_handlers.rs has no arm for `restore`) and
                        `git checkout <path>` without `--` (ParsedGitInvocation::pathspecs is empty, HEAD
                        unchanged: Case 2, nothing is done): the index version lands in the working tree,
@@ -51,7 +57,7 @@ namespace GitAi.Sys
 /-- the file's working-log entries and INITIAL claims are removed -/
 def dropClaims (st : State) : State := { st with entries := [], initial := [], initSnap := [] }
 
-def discardFile (st : State) : State := dropClaims { st with work := st.index }
+def discardFile (st : State) : State := checkpoint { st with work := st.index } none
 
 def restoreFile (st : State) : State := { st with work := st.index }
 
@@ -124,6 +130,10 @@ def byLineNumber (claims : List (Nat × Nat)) (work : List Nat) : List Author :=
 /-- the AI lines of an entry as (line number, session) claims -/
 def entryClaims (e : Entry) : List (Nat × Nat) :=
   (enum1 e.attr).filterMap (fun p => p.2.map (fun s => (p.1, s)))
+
+/-- path checkout before the repair of `reexamine_attributions_for_pathspecs`
+    (remove_attributions_for_pathspecs): every claim of the file goes, whatever the restored version holds -/
+def discardFileDrop (st : State) : State := dropClaims { st with work := st.index }
 
 /-- path checkout before cad0dd6e: the entries of the file go, but `write_initial_attributions` returned
     early on an empty set and left the INITIAL file with the claims of the last file in place -/
